@@ -1,12 +1,504 @@
-/- C13 model — placeholder until the property is built -/
+/-
+  C13 — remote evaluation over IPC equals evaluation on the server.
+
+  Part 1 `Sys/Framing` mirrors klongpy/sys_fn_ipc.py
+    encode_message                      -> `encode`      (16-byte id ++ struct.pack("!I", len) ++ body)
+    decode_message_len                  -> `unbe32`
+    asyncio.StreamReader.feed_data      -> `Reader.feed`
+    asyncio.StreamReader.readexactly    -> `readExactly` (waits for the next read while the buffer is short;
+                                           at end of stream raises IncompleteReadError(partial, expected))
+    stream_recv_msg                     -> `recvMsg`     (three readexactly: 16, 4, length)
+    the `_listen` loop over one stream  -> `decodeStream : List Bytes → List Msg × Tail`
+  The body of a frame is the pickle of the message; pickle itself is in the trusted base, the
+  model transports bodies as opaque bytes.
+
+  Part 2 `Sys/IpcDispatch` mirrors
+    NetworkClient.__call__              -> `mkRequest`, `clientPost`
+    KGRemoteFnProxy.__call__            -> `proxyRequest`
+    NetworkClientDictHandle.get / set   -> `dictGetRequest`, `dictSetRequest`, `clientPost`
+    execute_server_command              -> `dispatch`, `wrapResp`
+    pickle of the command / the answer  -> `tau singleton` (the only thing modelled about pickle:
+                                           what it does to the `:undefined` marker, klongpy/types.py
+                                           KGUndefined; `singleton = true` is the repaired class whose
+                                           constructor returns the one instance)
+  over an abstract interpreter `Interp` (evaluation itself is C01–C04's business), plus a small
+  concrete interpreter `Mini` used by the driver and by the `decide`d witnesses.
+-/
 import Klong.Model.Wire
 namespace Klong.C13
+open Klong.Wire
+
+/-! ## Sys/Framing -/
+
+structure Msg where
+  id : Bytes
+  body : Bytes
+deriving Repr, DecidableEq
+
+/-- `struct.pack("!I", n)` -/
+def be32 (n : Nat) : Bytes := [n / 16777216 % 256, n / 65536 % 256, n / 256 % 256, n % 256]
+
+/-- `struct.unpack("!I", b)[0]` (only ever applied to exactly four bytes) -/
+def unbe32 : Bytes → Nat
+  | [a, b, c, d] => a * 16777216 + b * 65536 + c * 256 + d
+  | _ => 0
+
+/-- `encode_message(msg_id, msg)` with `body = pickle.dumps(msg)` -/
+def encode (m : Msg) : Bytes := m.id ++ (be32 m.body.length ++ m.body)
+
+/-- what `encode_message` can produce: a uuid has 16 bytes, `"!I"` packs lengths below 2^32 -/
+def Msg.WF (m : Msg) : Prop := m.id.length = 16 ∧ m.body.length < 4294967296
+
+instance (m : Msg) : Decidable m.WF := by unfold Msg.WF; infer_instance
+
+/-- a stream reader: bytes received and not yet consumed, and the network reads still to
+    arrive (after the last one the peer closes: `feed_eof`) -/
+structure Reader where
+  buf : Bytes
+  rest : List Bytes
+deriving Repr
+
+/-- `StreamReader.feed_data` -/
+def Reader.feed (r : Reader) (chunk : Bytes) : Reader := { r with buf := r.buf ++ chunk }
+
+/-- `await reader.readexactly(n)`: `.ok (data, buf', rest')`, or `.error partial` for
+    `IncompleteReadError(partial, n)` when the stream ends first -/
+def readExactly (n : Nat) : Bytes → List Bytes → Except Bytes (Bytes × Bytes × List Bytes)
+  | buf, [] => if n ≤ buf.length then .ok (buf.take n, buf.drop n, []) else .error buf
+  | buf, c :: cs =>
+    if n ≤ buf.length then .ok (buf.take n, buf.drop n, c :: cs)
+    else readExactly n (buf ++ c) cs          -- `_wait_for_data`, then `feed_data(c)`
+
+inductive Stage | id | len | body
+deriving Repr, DecidableEq
+
+inductive Recv
+  | msg (m : Msg) (buf : Bytes) (rest : List Bytes)
+  | eof (st : Stage) (partialLen : Nat) (expected : Nat)   -- IncompleteReadError raised by read `st`
+deriving Repr
+
+/-- `stream_recv_msg(reader)` (`decode_message` keeps the id bytes and unpickles the body) -/
+def recvMsg (buf : Bytes) (rest : List Bytes) : Recv :=
+  match readExactly 16 buf rest with
+  | .error p => .eof .id p.length 16
+  | .ok (rid, b1, r1) =>
+    match readExactly 4 b1 r1 with
+    | .error p => .eof .len p.length 4
+    | .ok (rl, b2, r2) =>
+      match readExactly (unbe32 rl) b2 r2 with
+      | .error p => .eof .body p.length (unbe32 rl)
+      | .ok (data, b3, r3) => .msg ⟨rid, data⟩ b3 r3
+
+/-- how a stream ends -/
+inductive Tail
+  | eof (st : Stage) (partialLen : Nat) (expected : Nat)
+  | fuel                                    -- never produced by `decodeStream` (theorem `decodeStream_no_fuel`)
+deriving Repr, DecidableEq
+
+/-- end of stream exactly on a frame boundary -/
+def Tail.clean : Tail := .eof .id 0 16
+
+def decodeLoop : Nat → Bytes → List Bytes → List Msg × Tail
+  | 0, _, _ => ([], .fuel)
+  | f + 1, buf, rest =>
+    match recvMsg buf rest with
+    | .eof st p e => ([], .eof st p e)
+    | .msg m b r => ((m :: (decodeLoop f b r).1), (decodeLoop f b r).2)
+
+/-- the receive loop run over a whole connection: `chunks` are the network reads in order,
+    then end of stream. Every frame takes at least 20 bytes, so `length + 1` rounds suffice. -/
+def decodeStream (chunks : List Bytes) : List Msg × Tail :=
+  decodeLoop (chunks.flatten.length + 1) [] chunks
+
+/-! ### reference: the same parser on the undivided byte string -/
+
+def recvFlat (s : Bytes) : Except (Stage × Nat × Nat) (Msg × Bytes) :=
+  if s.length < 16 then .error (.id, s.length, 16)
+  else if (s.drop 16).length < 4 then .error (.len, (s.drop 16).length, 4)
+  else if ((s.drop 16).drop 4).length < unbe32 ((s.drop 16).take 4) then
+    .error (.body, ((s.drop 16).drop 4).length, unbe32 ((s.drop 16).take 4))
+  else .ok (⟨s.take 16, ((s.drop 16).drop 4).take (unbe32 ((s.drop 16).take 4))⟩,
+            ((s.drop 16).drop 4).drop (unbe32 ((s.drop 16).take 4)))
+
+def decodeFlat : Nat → Bytes → List Msg × Tail
+  | 0, _ => ([], .fuel)
+  | f + 1, s =>
+    match recvFlat s with
+    | .error (st, p, e) => ([], .eof st p e)
+    | .ok (m, s') => (m :: (decodeFlat f s').1, (decodeFlat f s').2)
+
+/-- the status reported when the stream ends `k` bytes into the frame of `m` -/
+def cutTail (m : Msg) (k : Nat) : Tail :=
+  if k < 16 then .eof .id k 16
+  else if k < 20 then .eof .len (k - 16) 4
+  else .eof .body (k - 20) m.body.length
+
+/-! ## Sys/IpcDispatch -/
+
+/-- values that exist in an interpreter or on the wire -/
+inductive Val
+  | int (n : Int)
+  | real (bits : String)             -- IEEE bit pattern, opaque here
+  | chr (c : Nat)
+  | sym (s : String)
+  | str (s : String)
+  | list (xs : List Val)
+  | dict (kvs : List Val)            -- key, value, key, value, …
+  | undef                            -- the KLONG_UNDEFINED singleton (`a is KLONG_UNDEFINED`)
+  | undefCopy                        -- a KGUndefined instance that is not the singleton
+  | none                             -- Python None (answer to a dict-set command)
+  | fn (arity : Nat) (code : Nat)    -- KGFn / KGLambda living in an interpreter
+  | fnref (arity : Nat)              -- KGRemoteFnRef
+  | proxy (sym : String) (arity : Nat)   -- KGRemoteFnProxy bound to the connection
+deriving Repr, Inhabited
+
+mutual
+/-- the transportable universe: data all the way down, `:undefined` being the singleton -/
+def Val.data : Val → Bool
+  | .int _ | .real _ | .chr _ | .sym _ | .str _ | .undef => true
+  | .list xs => Val.dataL xs
+  | .dict kvs => Val.dataL kvs
+  | .undefCopy | .none | .fn _ _ | .fnref _ | .proxy _ _ => false
+def Val.dataL : List Val → Bool
+  | [] => true
+  | x :: xs => Val.data x && Val.dataL xs
+end
+
+/-- `:_x` — klongpy/monads.py eval_monad_undefined: `a is None or a is KLONG_UNDEFINED` -/
+def Val.isUndef : Val → Bool
+  | .undef | .none => true
+  | _ => false
+
+mutual
+/-- pickle round trip. Everything is rebuilt as an equal object; a `KGUndefined` is rebuilt by
+    calling the class, which returns the singleton iff the class is a singleton class. -/
+def tau (singleton : Bool) : Val → Val
+  | .undef => if singleton then .undef else .undefCopy
+  | .list xs => .list (tauL singleton xs)
+  | .dict kvs => .dict (tauL singleton kvs)
+  | v => v
+def tauL (singleton : Bool) : List Val → List Val
+  | [] => []
+  | x :: xs => tau singleton x :: tauL singleton xs
+end
+
+/-- what the IPC layer needs from an interpreter -/
+structure Interp (σ : Type) where
+  evalText : σ → String → Option (σ × Val)        -- `klong(text)`; `none` = raises
+  get : σ → String → Option Val                    -- `klong[KGSym(s)]`; `none` = KeyError
+  set : σ → String → Val → σ                       -- `klong[KGSym(s)] = v`
+  call : σ → Val → List Val → Option (σ × Val)     -- apply a function value to parameters
+
+/-- the commands `execute_server_command` distinguishes -/
+inductive Cmd
+  | text (t : String)                               -- anything else: `klong(str(command))`
+  | fnCall (sym : String) (params : List Val)       -- KGRemoteFnCall
+  | dictGet (key : String)                          -- KGRemoteDictGetCall
+  | dictSet (key : String) (value : Val)            -- KGRemoteDictSetCall
+deriving Repr
+
+/-- NetworkClient.__call__: a list whose first element is a symbol is a function call, everything
+    else is sent as it is and evaluated as text (modelled for strings and symbols) -/
+def mkRequest : Val → Option Cmd
+  | .list (.sym s :: params) => some (.fnCall s params)
+  | .str t => some (.text t)
+  | .sym s => some (.text s)
+  | _ => Option.none
+
+/-- KGRemoteFnProxy.__call__: the first `arity` arguments -/
+def proxyRequest (sym : String) (arity : Nat) (args : List Val) : Cmd := .fnCall sym (args.take arity)
+
+def Cmd.transport (τ : Val → Val) : Cmd → Cmd
+  | .text t => .text t
+  | .fnCall s ps => .fnCall s (ps.map τ)
+  | .dictGet k => .dictGet k
+  | .dictSet k v => .dictSet k (τ v)
+
+def Val.isFn : Val → Bool
+  | .fn _ _ => true
+  | _ => false
+
+/-- functions do not travel: the answer is a KGRemoteFnRef carrying the arity -/
+def wrapResp : Val → Val
+  | .fn a _ => .fnref a
+  | v => v
+
+/-- execute_server_command -/
+def dispatch {σ : Type} (I : Interp σ) (st : σ) : Cmd → Option (σ × Val)
+  | .fnCall s ps =>
+    match I.get st s with
+    | some r => if r.isFn then (I.call st r ps).map (fun p => (p.1, wrapResp p.2)) else Option.none
+    | Option.none => Option.none
+  | .dictSet k v => some (I.set st k v, .none)
+  | .dictGet k => (I.get st k).map (fun r => (st, wrapResp r))
+  | .text t => (I.evalText st t).map (fun p => (p.1, wrapResp p.2))
+
+/-- NetworkClient.__call__ / NetworkClientDictHandle.get after the answer arrived:
+    asked for a symbol and got a function reference -> a proxy -/
+def clientPost (askedSym : Option String) (resp : Val) : Val :=
+  match askedSym, resp with
+  | some s, .fnref a => .proxy s a
+  | _, r => r
+
+def askedSym : Val → Option String
+  | .sym s => some s
+  | _ => Option.none
+
+/-- one round trip of a command: pickle, dispatch on the server, pickle back -/
+def roundTrip {σ : Type} (τ : Val → Val) (I : Interp σ) (st : σ) (c : Cmd) : Option (σ × Val) :=
+  (dispatch I st (c.transport τ)).map (fun p => (p.1, τ p.2))
+
+/-- `f(x)` through a remote function handle -/
+def remoteApply {σ : Type} (τ : Val → Val) (I : Interp σ) (st : σ) (x : Val) : Option (σ × Val) :=
+  match mkRequest x with
+  | Option.none => Option.none
+  | some c => (roundTrip τ I st c).map (fun p => (p.1, clientPost (askedSym x) p.2))
+
+/-- `q(args)` through a function proxy -/
+def remoteProxy {σ : Type} (τ : Val → Val) (I : Interp σ) (st : σ) (sym : String) (arity : Nat)
+    (args : List Val) : Option (σ × Val) :=
+  roundTrip τ I st (proxyRequest sym arity args)
+
+/-- `d?:k` through a remote dictionary -/
+def remoteGet {σ : Type} (τ : Val → Val) (I : Interp σ) (st : σ) (k : String) : Option (σ × Val) :=
+  (roundTrip τ I st (.dictGet k)).map (fun p => (p.1, clientPost (some k) p.2))
+
+/-- `d,:k,,v` through a remote dictionary (the client-side result is the handle itself) -/
+def remoteSet {σ : Type} (τ : Val → Val) (I : Interp σ) (st : σ) (k : String) (v : Val) : Option σ :=
+  (roundTrip τ I st (.dictSet k v)).map (·.1)
+
+/-! ### the same operations evaluated locally on the server interpreter -/
+
+/-- how a local result is presented to a remote caller: data as itself, a function as a
+    reference (text form) or as a proxy for the symbol asked for -/
+def present (asked : Option String) : Val → Val
+  | .fn a _ => match asked with
+    | some s => .proxy s a
+    | Option.none => .fnref a
+  | v => v
+
+def localCall {σ : Type} (I : Interp σ) (st : σ) (name : String) (args : List Val) : Option (σ × Val) :=
+  match I.get st name with
+  | some r => if r.isFn then I.call st r args else Option.none
+  | Option.none => Option.none
+
+/-! ### a small concrete interpreter (driver and witnesses)
+
+  The text of `f("…")` is abstracted to a parsed form: the harness renders each `Expr` as
+  Klong source for the real server and sends its token form to the model. -/
+
+inductive Expr
+  | lit (v : Val)                      -- an expression whose value is `v` (`[1 2 3]`, `1%0`, …)
+  | assign (name : String) (v : Val)   -- `name::<expression with value v>`
+  | var (name : String)                -- `name`
+  | call (name : String) (args : List Val)   -- `name(a;b;c)` with literal arguments
+  | undefq (name : String)             -- `:_name`
+deriving Repr
+
+abbrev Store := List (String × Val)
+
+def Store.get (s : Store) (k : String) : Option Val := List.lookup k s
+def Store.set (s : Store) (k : String) (v : Val) : Store := (k, v) :: s.filter (fun p => p.1 != k)
+
+def intOf : Val → Option Int
+  | .int n => some n
+  | _ => Option.none
+
+/-- the functions the harness defines on the server, by code number -/
+def builtinCall (s : Store) (code : Nat) (ps : List Val) : Option (Store × Val) :=
+  match code, ps with
+  | 0, [] => some (s, .int 77)                                  -- k0::{77}
+  | 1, [x] => some (s, x)                                       -- id1::{x}
+  | 2, [_, y] => some (s, y)                                    -- snd::{y}
+  | 3, [_, _, z] => some (s, z)                                 -- trd::{z}
+  | 4, [x] => some (s, .int (if x.isUndef then 1 else 0))       -- und1::{:_x}
+  | 5, [x] => some (s, x)                                       -- pyid = lambda x: x
+  | 6, [_, y] => some (s, y)                                    -- pysnd = lambda x, y: y
+  | 7, [x] =>                                                   -- bump::{cnt::cnt+x}
+    match (s.get "cnt").bind intOf, intOf x with
+    | some c, some d => some (s.set "cnt" (.int (c + d)), .int (c + d))
+    | _, _ => Option.none
+  | 8, [x] => some (s.set "last" x, x)                          -- keep::{last::x}
+  | _, _ => Option.none
+
+def builtins : Store :=
+  [("k0", .fn 0 0), ("id1", .fn 1 1), ("snd", .fn 2 2), ("trd", .fn 3 3), ("und1", .fn 1 4),
+   ("pyid", .fn 1 5), ("pysnd", .fn 2 6), ("bump", .fn 1 7), ("keep", .fn 1 8), ("cnt", .int 0)]
+
+def miniCall (s : Store) (f : Val) (ps : List Val) : Option (Store × Val) :=
+  match f with
+  | .fn _ code => builtinCall s code ps
+  | _ => Option.none
+
+def evalExpr (s : Store) : Expr → Option (Store × Val)
+  | .lit v => some (s, v)
+  | .assign n v => some (s.set n v, v)
+  | .var n => (s.get n).map (fun v => (s, v))
+  | .call n args => (s.get n).bind (fun f => miniCall s f args)
+  | .undefq n => (s.get n).map (fun v => (s, .int (if v.isUndef then 1 else 0)))
+
+/-! ### driver: token codec and line protocol
+
+  A value is a comma-separated token sequence in prefix form:
+  `i-3  r3ff8…  c97  y<hex>  s<hex>  U  V  N  F2  G2  P2,y<hex>  L3,<v>,<v>,<v>  D2,<k>,<v>,<k>,<v>` -/
+
+def hexStr (s : String) : String := toHex (s.toList.map Char.toNat)
+def unhexStr (h : String) : Option String := (parseHex h).map (fun bs => String.ofList (bs.map Char.ofNat))
+
+mutual
+def printVal : Val → List String
+  | .int n => [s!"i{n}"]
+  | .real b => ["r" ++ b]
+  | .chr c => [s!"c{c}"]
+  | .sym s => ["y" ++ hexStr s]
+  | .str s => ["s" ++ hexStr s]
+  | .list xs => s!"L{xs.length}" :: printVals xs
+  | .dict kvs => s!"D{kvs.length / 2}" :: printVals kvs
+  | .undef => ["U"]
+  | .undefCopy => ["V"]
+  | .none => ["N"]
+  | .fn a _ => [s!"G{a}"]
+  | .fnref a => [s!"F{a}"]
+  | .proxy s a => [s!"P{a}", "y" ++ hexStr s]
+def printVals : List Val → List String
+  | [] => []
+  | x :: xs => printVal x ++ printVals xs
+end
+
+def showVal (v : Val) : String := ",".intercalate (printVal v)
+
+mutual
+def parseVal : Nat → List String → Option (Val × List String)
+  | 0, _ => Option.none
+  | _ + 1, [] => Option.none
+  | f + 1, t :: ts =>
+    match t.toList with
+    | 'i' :: cs => (String.ofList cs).toInt?.map (fun n => (.int n, ts))
+    | 'r' :: cs => some (.real (String.ofList cs), ts)
+    | 'c' :: cs => (String.ofList cs).toNat?.map (fun n => (.chr n, ts))
+    | 'y' :: cs => (unhexStr (String.ofList cs)).map (fun s => (.sym s, ts))
+    | 's' :: cs => (unhexStr (String.ofList cs)).map (fun s => (.str s, ts))
+    | ['U'] => some (.undef, ts)
+    | ['V'] => some (.undefCopy, ts)
+    | ['N'] => some (.none, ts)
+    | 'F' :: cs => (String.ofList cs).toNat?.map (fun n => (.fnref n, ts))
+    | 'L' :: cs =>
+      (String.ofList cs).toNat?.bind fun n =>
+        (parseVals f n ts).map fun p => (.list p.1, p.2)
+    | 'D' :: cs =>
+      (String.ofList cs).toNat?.bind fun n =>
+        (parseVals f (2 * n) ts).map fun p => (.dict p.1, p.2)
+    | _ => Option.none
+def parseVals : Nat → Nat → List String → Option (List Val × List String)
+  | 0, _, _ => Option.none
+  | _ + 1, 0, ts => some ([], ts)
+  | f + 1, n + 1, ts =>
+    (parseVal f ts).bind fun p =>
+      (parseVals f n p.2).map fun q => (p.1 :: q.1, q.2)
+end
+
+/-- a complete value, nothing left over -/
+def readVal (s : String) : Option Val :=
+  let ts := splitOnChar s ','
+  match parseVal (ts.length + 1) ts with
+  | some (v, []) => some v
+  | _ => Option.none
+
+/-- the parsed form of a text command: `lit,<v>` `assign,<name>,<v>` `var,<name>` `call,<name>,<list>` `undefq,<name>` -/
+def parseExpr (t : String) : Option Expr :=
+  match splitOnChar t ',' with
+  | "lit" :: ts => (readVal (",".intercalate ts)).map .lit
+  | "assign" :: n :: ts => (readVal (",".intercalate ts)).map (.assign n)
+  | ["var", n] => some (.var n)
+  | "call" :: n :: ts =>
+    match readVal (",".intercalate ts) with
+    | some (.list args) => some (.call n args)
+    | _ => Option.none
+  | ["undefq", n] => some (.undefq n)
+  | _ => Option.none
+
+/-- the interpreter the driver runs the dispatch model over -/
+def Mini : Interp Store where
+  evalText := fun s t => (parseExpr t).bind (evalExpr s)
+  get := Store.get
+  set := Store.set
+  call := miniCall
 
 structure State where
-  unit : Unit := ()
+  store : Store := builtins
+  singleton : Bool := true
 
 def init : State := {}
 
-def handle (s : State) (_ws : List String) : State × String := (s, "bad-op")
+def showStore (s : Store) : String :=
+  let es := s.map (fun p => (p.1, showVal p.2))
+  let sorted := es.mergeSort (fun a b => decide (a.1 ≤ b.1))
+  ";".intercalate (sorted.map (fun p => p.1 ++ ":" ++ p.2))
+
+def reply (st : State) (r : Option (Store × Val)) : State × String :=
+  match r with
+  | Option.none => (st, "raise store=" ++ showStore st.store)
+  | some (s', v) =>
+    ({ st with store := s' },
+     s!"ok res={showVal v} undef={if v.isUndef then 1 else 0} store={showStore s'}")
+
+def showTail : Tail → String
+  | .eof .id 0 16 => "clean"
+  | .eof .id p e => s!"inside:id:{p}:{e}"
+  | .eof .len p e => s!"inside:len:{p}:{e}"
+  | .eof .body p e => s!"inside:body:{p}:{e}"
+  | .fuel => "fuel"
+
+def showMsgs (ms : List Msg) : String :=
+  ",".intercalate (ms.map (fun m => toHex m.id ++ "/" ++ toHex m.body))
+
+def parseChunks (s : String) : Option (List Bytes) :=
+  ((s.splitOn ",").map (fun h => parseHex h)).mapM id
+
+def handle (st : State) (ws : List String) : State × String :=
+  match ws with
+  | "decode" :: rest =>
+    -- decode chunks=<hex>,<hex>,…   (an empty piece is an empty read; `chunks=-` is no read at all)
+    let fs := fields rest
+    match field fs "chunks" with
+    | some "-" => let r := decodeStream []; (st, s!"msgs={showMsgs r.1} tail={showTail r.2}")
+    | some c =>
+      match parseChunks c with
+      | some chunks => let r := decodeStream chunks; (st, s!"msgs={showMsgs r.1} tail={showTail r.2}")
+      | Option.none => (st, "bad-op")
+    | Option.none => (st, "bad-op")
+  | "encode" :: rest =>
+    let fs := fields rest
+    match (field fs "id").bind parseHex, (field fs "body").bind parseHex with
+    | some i, some b => (st, "frame=" ++ toHex (encode ⟨i, b⟩))
+    | _, _ => (st, "bad-op")
+  | "new" :: rest =>
+    match field (fields rest) "singleton" with
+    | some "1" => ({ store := builtins, singleton := true }, "ok store=" ++ showStore builtins)
+    | some "0" => ({ store := builtins, singleton := false }, "ok store=" ++ showStore builtins)
+    | _ => (st, "bad-op")
+  | "apply" :: rest =>
+    match (field (fields rest) "x").bind readVal with
+    | some x =>
+      match mkRequest x with
+      | some _ => reply st (remoteApply (tau st.singleton) Mini st.store x)
+      | Option.none => (st, "unmodelled")
+    | Option.none => (st, "bad-op")
+  | "proxy" :: rest =>
+    let fs := fields rest
+    match field fs "name", natField fs "arity", (field fs "args").bind readVal with
+    | some n, some a, some (.list args) => reply st (remoteProxy (tau st.singleton) Mini st.store n a args)
+    | _, _, _ => (st, "bad-op")
+  | "dget" :: rest =>
+    match field (fields rest) "name" with
+    | some n => reply st (remoteGet (tau st.singleton) Mini st.store n)
+    | Option.none => (st, "bad-op")
+  | "dset" :: rest =>
+    let fs := fields rest
+    match field fs "name", (field fs "val").bind readVal with
+    | some n, some v =>
+      reply st ((remoteSet (tau st.singleton) Mini st.store n v).map (fun s' => (s', Val.none)))
+    | _, _ => (st, "bad-op")
+  | _ => (st, "bad-op")
 
 end Klong.C13
